@@ -111,6 +111,8 @@ pub trait ApplyRule: IndexTape {
     fn apply_rule(&mut self, rule: &Rule) -> Option<Count> {
         let (times, min_pos, min_res) = self.count_apps(rule)?;
 
+        let mut results = Vec::with_capacity(rule.len());
+
         for (pos, diff) in rule {
             let Plus(plus) = *diff else { unimplemented!() };
 
@@ -121,6 +123,10 @@ pub trait ApplyRule: IndexTape {
                 apply_plus(self.get_count(pos), plus, times)?
             };
 
+            results.push((pos, result));
+        }
+
+        for (pos, result) in results {
             self.set_count(pos, result);
         }
 
